@@ -113,11 +113,15 @@ CLAIMS = {
    technique="Lean 4 proof (refinement of a list-based registry to a history-defined set specification, induction over histories) + history-driven oracle on the implementation",
    design="§5 C19"),
  'C13': dict(
-   text="Proved by symbolic execution of the builder's bytes on the VM model, for every 32-byte key, allowed-flags byte, witness-left stack, cache, limits, call counter and (arbitrary) crypto parameters, with no signature-extension plugin installed: running the single-signature lock ends with exactly the C02 specification's verdict of (sig, pk) on top of the remaining stack, or with exactly its error; "
-        "hence the lock alone authorizes a witness that left [sig] iff SigPure.checkSig = ok true - which with C02.4 gives completeness for every permitted flag and makes 'another key / other covered fields / non-permitted flag' exactly the C02 rejection conditions. "
+   text="Proved by byte-level symbolic execution of the builders' bytes on the VM model, for every key, allowed-flags byte, witness-left stack, cache, limits, call counter and (arbitrary) crypto parameters, no signature-extension plugin installed: "
+        "(single signature, layout 1) the run ends with exactly the C02 verdict / error of (sig, pk) (singleSigLock_run, singleSigLock_accepts_iff); "
+        "(layout 2, key committed by hash) an error unless the supplied key hashes to the committed hash, then exactly the C02 verdict under the supplied key (singleSigLock2_run); "
+        "(m-of-n multisig) exactly the C03 specification SigPure.multisig of the witness's m signature items against the lock's keys (multisigLock_run, through checkMultisig_instruction) - so by C03 true only with pairwise distinct signatures matched to m different listed keys; "
+        "(script hash) a script that does not hash to the committed hash ends the lock in an error before OP_EVAL, only the stack changed (scripthashLock_rejects); one that does is evaluated and the lock ends exactly as that script does (scripthashLock_accepts). "
+        "With C02.4 this gives completeness for every permitted flag and makes 'another key / other covered fields / non-permitted flag / different committed script' exactly the C02 / hash rejection conditions. "
         "Tie: bytes of the single-sig (both layouts), multisig, script-hash, graftroot and graftap lock builders vs the model's builders; verdicts of every witness kind against every lock kind (compatibility table), witnesses by another key, changed covered / excluded sigfields, non-permitted flags, different committed / surrogate scripts, foreign-signed surrogates, one key supplying two distinct signatures to a 2-of-3, holder + outsider - judged on the implementation alone; every list also run on the model.",
-   note="the acceptance theorem is proved for the single-signature lock; the other pairs (layout 2, multisig, script-hash, graftroot, graftap) are tied by builder-bytes comparison and verdict matrices, not by a per-lock theorem.",
-   technique="Lean 4 proof (byte-level symbolic execution of the lock on the VM model, refinement to the C02 pure spec) + verdict-matrix oracle + differential correspondence of builder bytes and runs",
+   note="per-lock theorems: single-sig (both layouts), multisig, script-hash. Graftroot and graftap (taproot of a graftroot script; OP_TAPROOT itself is covered by C05) are tied by builder-bytes comparison and verdict matrices, not by a per-lock theorem. Collision resistance of SHAKE-256 is not assumed: hash conditions are stated as digest equalities.",
+   technique="Lean 4 proof (byte-level big-step symbolic execution of the locks on the VM model, refinement to the C02 / C03 pure specs) + verdict-matrix oracle + differential correspondence of builder bytes and runs",
    design="§5 C13"),
  'C14': dict(
    text="Proved by byte-level symbolic execution of make_delegate_key_lock on the VM model (27 instructions, big-step rules per instruction) for every root key, certificate fields, certificate signature, final signature, cache, timestamp, clock, slack threshold, limits and (arbitrary) crypto parameters, no signature-extension plugin: "
